@@ -138,10 +138,18 @@ CLAIMED = {
    text="TLC checks the duration algebra (the writer's token form means exactly the timedelta triple, negation is involutive, well-formedness condition) on a boundary grid and the trace spec applies Law(K, input kind) to every observed call. For each scalar kind, boundary values and seeded random values are printed with Python's own printer and parsed back through the real unmarshal in five carriers; marshalling must emit that very text and the standard library's own parser must read it back; durations are tokenised by an independent regex and judged by Meaning/WellFormed in TLA+; numbers are read as UTC epoch seconds against datetime.fromtimestamp and temporals converted to int/float/str/bytes; half the values run after the memos were warmed with an equal-but-different twin; everything runs under TZ=UTC and TZ=XXX-5:30. Infinite scalar domains are sampled, hence exploration.",
    ref="DESIGN.md section 4 C04",
    note="Trusted: TLC; Python's str()/isoformat()/fromisoformat()/Decimal/Fraction/UUID parsers as oracle; the regex duration tokenizer. time -> number (depends on today's date) is not asserted."),
+ "C17": dict(
+   engine="Dispatch",
+   technique="TLA+ spec Dispatch.tla (each predicate as a definition over primitive runtime facts) evaluated by TLC on recorded predicate calls (Dispatch_Trace.tla); facts extracted with typing/issubclass/dataclasses only",
+   level="other",
+   text="A catalogue differential whose oracle is composed in TLA+: 35 predicates are definitions over primitive facts (issubclass of the resolved class against named bases, typing.get_origin/get_args, special-form flags) extracted at check time without typelib for ~150 objects; TLC evaluates Def(p, facts) for every recorded call and checks agreement, no raise inside the domain, stability across calls (second pass in reverse order), equal answers across spellings of one type, origin()/args() against typing, and instantiable origins of collection annotations.",
+   ref="DESIGN.md section 4 C17",
+   note="TLC contributes definitions and evaluation, not state exploration. Trusted: the fact extractor (stdlib), the resolution rule (NewType/alias/ClassVar, typing origin, documented abstract->builtin map)."),
 }
 NOT_BUILT = "check not built yet (build in progress; see DESIGN.md section 7 build order)"
 
 ENGINES = {
+ "Dispatch": dict(path="spec/Dispatch.tla", kind="TLA+ definitions + TLC trace evaluation + harness/drivers/c17.py"),
  "Scalars": dict(path="spec/Scalars.tla", kind="TLA+ spec + TLC (duration algebra, trace validation) + hypothesis-driven harness/drivers/c04.py"),
  "Caches": dict(path="spec/Caches.tla", kind="TLA+ spec + TLC (exhaustive histories, emission, trace validation) + harness/zygote.py + harness/drivers/c12.py"),
  "Codec": dict(path="spec/Codec.tla", kind="TLA+ spec + TLC (exhaustive histories, trace validation) + harness/drivers/c02.py"),
@@ -186,6 +194,6 @@ for p in props:
             "level_note": c["note"],
         })
     else:
-        m["not_applicable"].append({"property_id": pid, "reason": NOT_BUILT})
+        m["not_applicable"].append({"property_id": pid, "reason": NOT_BUILT})  # none left
 json.dump(m, open(os.path.join(HERE, "MANIFEST.json"), "w"), indent=1)
 print("claimed:", sorted(CLAIMED), "not claimed:", len(m["not_applicable"]))
